@@ -16,7 +16,7 @@ import time
 HERE = os.path.dirname(os.path.abspath(__file__))
 VERIF = os.path.dirname(HERE)
 CACHE = os.environ.get('CAPCHECK_CACHE', os.path.join(VERIF, '.cache'))
-TOOL_VERSION = '8'
+TOOL_VERSION = '9'
 
 CONTAINERS = ['lru_cache', 'mru_cache', 'rr_cache', 'fifo_cache', 'lfu_cache', 'lfuda_cache',
               'tlru_cache', 'utlru_cache', 'ut_map', 'ut_set']
@@ -192,6 +192,7 @@ class Field:
 
 class Record:
     def __init__(self, node):
+        self.node = node
         self.name = node.get('name')
         self.id = node['id']
         self.fields = [Field(c, self) for c in node.get('inner', []) if c.get('kind') == 'FieldDecl']
@@ -294,19 +295,27 @@ class Program:
 
     def check_complete(self):
         probs = []
+        self.skipped_templates = []
         for name in CONTAINERS:
             if name not in self.classes:
                 probs.append('container %s: no instantiated specialisation in the AST dump' % name)
                 continue
             cm = self.classes[name]
             for (t, access, loc) in cm.uninstantiated_templates:
-                if access == 'public':
+                if access == 'public' and t in API_TEMPLATES:
                     probs.append('%s::%s (%s): public member template has no instantiated body '
                                  '(driver does not cover it)' % (name, t, fmt_loc(loc)))
+                elif access == 'public':
+                    # a member template outside the documented API that nothing instantiates has no body to analyse (and no
+                    # caller in the library): recorded, not analysed
+                    self.skipped_templates.append('%s::%s (%s)' % (name, t, fmt_loc(loc)))
             if cm.ctor() is None:
                 probs.append('container %s: no user constructor found' % name)
         if probs:
             raise AnalysisIncomplete('G-INST: ' + '; '.join(probs))
+
+
+API_TEMPLATES = ('insert', 'insert_range', 'erase', 'erase_range', 'find', 'find_range', 'find_range_fill')
 
 
 def fmt_loc(loc, repo=None):
